@@ -7,6 +7,18 @@ args = [a for a in sys.argv[1:] if not a.startswith("--")]
 props = args or sorted(os.listdir("/verif/mutations"))
 subprocess.run(["git", "-C", "/repo", "diff", "--quiet"], check=True)
 rows = []
+import shutil, atexit
+_saved = {}
+for prop in props:
+    ev = f"/verif/evidence/{prop}.json"
+    if os.path.exists(ev):
+        _saved[ev] = open(ev, "rb").read()
+def _restore():
+    # evidence written while a patch was applied describes a broken tree: put the clean-tree file back
+    for ev, data in _saved.items():
+        open(ev, "wb").write(data)
+    subprocess.run("rm -rf /verif/replays/*/new", shell=True)
+atexit.register(_restore)
 for prop in props:
     patches = [] if seeded_only else sorted(glob.glob(f"/verif/mutations/{prop}/*.diff"))
     for m in sorted(glob.glob("/verif/seeded/*/meta.json")):
